@@ -54,16 +54,16 @@ LEAN_MODULES = ['Mistral.Props.C10', 'Mistral.Props.C11X', 'Mistral.Props.C10Tre
 
 def correspond(ctx):
     from vlib import par
-    par.run_parallel(ctx, 'harness.core_stream', 'run_chunk', [{'n_programs': ctx.n(10, 300), 'mode': 'pause'}] * 7
-                     + [{'n_programs': ctx.n(10, 300), 'mode': 'mixed'}] * 7)
+    par.run_parallel(ctx, 'harness.core_stream', 'run_chunk', [{'n_programs': ctx.n(10, 100), 'mode': 'pause'}] * 7
+                     + [{'n_programs': ctx.n(10, 100), 'mode': 'mixed'}] * 7)
     par.run_parallel(ctx, 'harness.engine_stream', 'run_chunk',
-                     [{'n_programs': ctx.n(10, 300), 'props': ['C10'], 'mode': 'pause'}] * 14)
+                     [{'n_programs': ctx.n(10, 100), 'props': ['C10'], 'mode': 'pause'}] * 14)
     # the execution TREE: pause / resume (and stop) commands on any node of generated sub-workflow trees,
     # Mistral.Tree vs the real engine after every event + the monitors of the first sentence of C10
     par.run_parallel(ctx, 'harness.tree_stream', 'run_chunk',
-                     [{'n_cases': ctx.n(8, 120), 'props': ['C10'], 'gen_kw': {'p_pause': 0.6}}] * 14)
+                     [{'n_cases': ctx.n(8, 50), 'props': ['C10'], 'gen_kw': {'p_pause': 0.6}}] * 14)
     # "same result after resume" against the declarative semantics (theorem pause_resume_same_outcome)
-    par.run_parallel(ctx, 'harness.sem_stream', 'run_chunk', [{'n_programs': ctx.n(5, 150)}] * 14)
+    par.run_parallel(ctx, 'harness.sem_stream', 'run_chunk', [{'n_programs': ctx.n(5, 50)}] * 14)
 
 
 def search(ctx):
